@@ -32,6 +32,8 @@ import (
 // (DESIGN.md §5): creation timestamps / UIDs on create, graceful pod deletion through a kubelet
 // finalizer, write recording, fault injection at the k-th write, process stop, clock by aging.
 type simWorld struct {
+	envOps  int  // harness-side writes so far (see stepJ.Env)
+	inQuiet bool // a harness-side action is running
 	cl *swapClient
 	wl *writeLog
 	// fault plan for the current reconcile: write index -> "reject" | "lost" | "crash"
@@ -79,6 +81,9 @@ func (w *simWorld) build(objs []client.Object) {
 		return w.faults[k]
 	}
 	do := func(kind string, obj client.Object, apply func() error) error {
+		if w.inQuiet {
+			w.envOps++
+		}
 		w.wl.mu.Lock()
 		w.wl.Order = append(w.wl.Order, kind+":"+kindOf(obj)+"/"+obj.GetGenerateName()+obj.GetName())
 		cp := obj.DeepCopyObject().(client.Object)
@@ -176,6 +181,9 @@ func newSimWorld(objs []client.Object, aff bool, mode edsv1.ExtendedDaemonSetSpe
 
 // quiet runs f without recording its writes and without faults (harness-side actions).
 func (w *simWorld) quiet(f func()) {
+	wasQuiet := w.inQuiet
+	w.inQuiet = true
+	defer func() { w.inQuiet = wasQuiet }()
 	savedWl, savedF, savedC, savedT, savedG, savedL := w.wl, w.faults, w.writeCount, w.totalWrites, w.globalFaults, w.globalLog
 	w.wl, w.faults, w.globalFaults = &writeLog{}, nil, nil
 	f()
